@@ -76,6 +76,9 @@ func (in *dockerIn) query() string {
 	case "rangeby":
 		// the range aggregation's own grouping over two labels: one series per (k, j), the same at every run
 		return "max_over_time(" + sel + " | logfmt | unwrap v " + rng + ") by (k, j)"
+	case "jsondup":
+		// several labels drawn from one JSON path (objects, arrays, scalars): every one of them exists in every run
+		return sel + " | json req=\"request\", raw=\"request\", m=\"request.method\", m2=\"request.method\", tags=\"tags\", t2=\"tags\", t3=\"tags\""
 	case "logkv":
 		// lines whose keys differ only in characters that label names cannot carry (a.b, a_b): what each entry's labels
 		// are must not depend on the order a map is walked in
@@ -561,7 +564,7 @@ func allPerms(n int) [][]int {
 
 func genDeterminism(r *rand.Rand) dockerIn {
 	in := baseIn()
-	in.Shape = []string{"log", "count", "sumcount", "log", "sumdep", "maxnan", "logkv", "rangeby"}[r.Intn(8)]
+	in.Shape = []string{"log", "count", "sumcount", "log", "sumdep", "maxnan", "logkv", "rangeby", "jsondup", "jsondup"}[r.Intn(10)]
 	in.Start, in.End, in.Step, in.Range = []int{1700000000, 0}, []int{1700000060, 0}, 20, 600
 	nc := 2 + r.Intn(4)
 	sec := 1700000001
@@ -586,6 +589,13 @@ func genDeterminism(r *rand.Rand) dockerIn {
 				in.Ctrs[c].Frames[j].Msg = B(fmt.Sprintf("v=%d k=%d j=%d", 1+j, c%2, j%2))
 			}
 		}
+	} else if in.Shape == "jsondup" {
+		for c := range in.Ctrs {
+			for j := range in.Ctrs[c].Frames {
+				in.Ctrs[c].Frames[j].Msg = B(fmt.Sprintf(`{"request":{"method":"GET","path":"/p%d","hdr":{"a":%d}},"tags":["t%d",%d],"n":%d}`, j, c, c, j, j))
+			}
+		}
+		in.Reps = 4
 	} else if in.Shape == "logkv" {
 		for c := range in.Ctrs {
 			for j := range in.Ctrs[c].Frames {
